@@ -318,6 +318,8 @@ Proof.
            inv H. destruct (IH _ _ _ _ _ Hr) as (T & Q & N). split; [ts|auto].
         -- inv H. split; [ts|]. split; [discriminate|intros; exact I].
         -- inv H. split; [ts|]. split; [discriminate|intros; exact I].
+        -- inv H. split; [ts|]. split; [discriminate|intros; exact I].
+        -- inv H. split; [ts|]. split; [discriminate|intros; exact I].
       * inv H. split; [ts|]. split; [auto|congruence].
 Qed.
 
@@ -327,8 +329,8 @@ Lemma rep_done_l tok l s ns sc tr o sc0 tr0 rr0 st tr' r :
   rep_done l s ns sc tr o (sc0, tr0, rr0) = (st, tr', r) ->
   resL tok (Un (URepeat l) s) st r /\ trs (Un (URepeat l) s) tok tr' /\ incl tr tr'.
 Proof.
-  intros He R0 Ht Ht0 H. unfold rep_done in H.
-  destruct o; try (inv H; split; [auto with calc2|split; [assumption|apply incl_refl]]; fail).
+  intros He R0 Ht Ht0 H. rewrite rep_done_eq in H.
+  destruct (is_val o); [|inv H; split; [auto with calc2|split; [assumption|apply incl_refl]]].
   destruct (rep_loop s (sc0, tr0, rr0) (skipn (n_iter ns) l) (n_iter ns)) as [i' [[sc' tr2] r2]] eqn:Hr.
   destruct (rep_loop_l tok tok (URepeat l) s _ _ _ R0 Ht0 _ _ _ _ _ _ Hr) as (T & Q & N).
   assert (Hall : trs (Un (URepeat l) s) tok (tr ++ dtor s sc ++ tr2)) by ts.
@@ -393,8 +395,12 @@ Proof.
               inv H. destruct (IH _ _ _ _ _ _ _ _ _ _ (Rl (ex_intro _ e0 eq_refl)) Htl Hr) as (T & Q & N).
               split; [ts|auto].
            ++ inv H. split; [ts|]. split; [discriminate|intros; exact I].
+           ++ inv H. split; [ts|]. split; [discriminate|intros; exact I].
+           ++ inv H. split; [ts|]. split; [discriminate|intros; exact I].
         -- inv H. split; [ts|]. split; [|congruence].
            intros _. exists sa0, OFin. split; [reflexivity|]. left. auto.
+      * inv H. split; [ts|]. split; [discriminate|intros; exact I].
+      * inv H. split; [ts|]. split; [discriminate|intros; exact I].
       * inv H. split; [ts|]. split; [discriminate|intros; exact I].
       * inv H. split; [ts|]. split; [discriminate|intros; exact I].
     + inv H. split; [ts|]. split; [|congruence].
@@ -498,10 +504,10 @@ Lemma b_done_l tok k a b ns sb trb ob sa0 tra0 ra0 sbl trbl rbl st tr r :
 Proof.
   intros Hk He Htb Ra0 Hta0 Rl Htl H. unfold b_done in H.
   destruct k; try (eapply seq_final_l; eassumption).
-  unfold retry_b_done in H.
+  rewrite retry_b_done_eq in H.
   assert (Hi : forall x y, incl trb (trb ++ x ++ y)) by (intros x y z Hz; apply in_or_app; auto).
   assert (Hi2 : forall x, incl trb (trb ++ x)) by (intros x z Hz; apply in_or_app; auto).
-  destruct ob; try (inv H; split; [auto with calc2|split; [ts|auto]]; fail).
+  destruct (is_val ob); [|inv H; split; [auto with calc2|split; [ts|auto]]].
   destruct ra0 as [oa|].
   - destruct oa; try (inv H; split; [auto with calc2|split; [ts|auto]]; fail).
     destruct (retry_err a b (sa0, tra0, Some (OErr e)) (sbl, trbl, rbl) (n - n_iter ns) (n_iter ns) (sbl, trbl, rbl) e)
@@ -764,6 +770,17 @@ Proof.
         -- specialize (B1 eq_refl). destruct ra; exact B1.
 Qed.
 
+(* [stage 4] the child's result as its parent sees it (possibly re-delivered, possibly with a caught exception) *)
+Lemma child_ev_l thr cat tok c sc id oin o cx sc' tr r hit :
+  LeafevL c -> live tok c sc ->
+  child_ev thr cat c sc id oin o cx = ((sc', tr, r), hit) ->
+  resL tok c sc' r /\ trs c tok tr.
+Proof.
+  intros L HL H. apply child_ev_none in H. destruct H as (oin' & ro & h & E & Hro).
+  destruct (L _ _ _ _ _ _ _ _ _ E HL) as [[R1 R2] T]. split; [|exact T].
+  split; [intros En; apply R1; apply Hro; exact En|intros En; apply R2; intros E2; apply Hro in E2; contradiction].
+Qed.
+
 Lemma leafev_conc_l tok k a b ns sa sb id o cx st' tr r hit :
   is_seq k = false -> LeafevL a -> LeafevL b -> StopL a -> StopL b ->
   live tok (Bin k a b) (ONode ns sa sb) ->
@@ -772,13 +789,15 @@ Lemma leafev_conc_l tok k a b ns sa sb id o cx st' tr r hit :
 Proof.
   intros Hk La Lb Pa Pb HL H. assert (HL0 := HL). rewrite live_conc in HL by exact Hk.
   destruct HL as (He & Ho & Ha & Hb & Hd). unfold leafev_conc in H.
-  destruct (if adone ns then (sa, [], None, false) else reap_ev k a (leafev a sa id o cx))
+  destruct (if adone ns then (sa, [], None, false)
+            else reap_ev k a (child_ev (bin_throw k false) false a sa id (tmode o) o cx))
     as [[[sa' tra] ra] hita] eqn:Has.
   destruct hita.
   - destruct (adone ns) eqn:Had; [inv Has|]. simpl in Ha.
-    destruct (leafev a sa id o cx) as [[[sa0 tra0] ra0] h0] eqn:Hl. unfold reap_ev in Has. simpl in Has.
+    destruct (child_ev (bin_throw k false) false a sa id (tmode o) o cx) as [[[sa0 tra0] ra0] h0] eqn:Hl.
+    unfold reap_ev in Has. simpl in Has.
     injection Has as Has ->.
-    destruct (La _ _ _ _ _ _ _ _ _ Hl Ha) as [R0 T0].
+    destruct (child_ev_l _ _ _ _ _ _ _ _ _ _ _ _ _ La Ha Hl) as [R0 T0].
     destruct (conc_reap_l _ _ _ _ _ _ _ _ _ Has R0) as ([L1 L2] & -> & Tf & _).
     assert (Tt : trs (Bin k a b) tok tra).
     { apply trs_bin_a. apply (trs_weaken a _ (own_stop ns)); [exact Ho|]. apply Tf. exact T0. }
@@ -788,12 +807,12 @@ Proof.
       apply L2. discriminate.
     + inv H. split; [|exact Tt].
       apply resL_none. rewrite live_conc by exact Hk. rewrite Had. simpl. auto 6.
-  - destruct (if bdone ns then (sb, [], None, false) else reap_ev k b (leafev b sb id o cx))
+  - destruct (if bdone ns then (sb, [], None, false) else reap_ev k b (leafev b sb id (tmode o) cx))
       as [[[sb' trb] rb] hitb] eqn:Hbs.
     destruct (bdone ns) eqn:Hbd.
     + inv Hbs. inv H. split; [apply resL_none; exact HL0|]. apply trs_nil.
     + simpl in Hb.
-      destruct (leafev b sb id o cx) as [[[sb0 trb0] rb0] h0] eqn:Hl. unfold reap_ev in Hbs. simpl in Hbs.
+      destruct (leafev b sb id (tmode o) cx) as [[[sb0 trb0] rb0] h0] eqn:Hl. unfold reap_ev in Hbs. simpl in Hbs.
       injection Hbs as Hbs ->.
       destruct (Lb _ _ _ _ _ _ _ _ _ Hl Hb) as [R0 T0].
       destruct (conc_reap_l _ _ _ _ _ _ _ _ _ Hbs R0) as ([L1 L2] & -> & Tf & _).
@@ -907,7 +926,7 @@ Proof.
       * assert (HL0 := HL). destruct HL as [-> ->]. simpl in H.
         destruct (Nat.eqb id i); [|inv H; split; [apply resL_none; exact HL0|apply trs_nil]].
         destruct o; inv H; (split; [|repeat constructor]);
-          [apply resL_none; exact I|apply resL_some; exact I|apply resL_some; exact I].
+          solve [apply resL_none; exact I|apply resL_some; exact I].
       * simpl in H. destruct (Nat.eqb id i); inv H; (split; [|apply trs_nil]);
           [apply resL_some; exact I|apply resL_none; exact I].
   - (* StopIf *)
@@ -972,8 +991,8 @@ Proof.
     + intros tok cx st id o st' tr r hit H HL. destruct st as [|cc sn|ns sc sb|sa sb|vv]; try contradiction HL.
       assert (HL0 := HL). rewrite live_un in HL. destruct HL as (He & Ho & HL).
       rewrite leafev_un in H. unfold leafev_un_body in H.
-      destruct (leafev s sc id o cx) as [[[sc' tr1] r1] h1] eqn:Hs.
-      destruct (Ls _ _ _ _ _ _ _ _ _ Hs HL) as [R1 T1].
+      destruct (child_ev (un_throw k) (un_catch k) s sc id (un_in k o) o cx) as [[[sc' tr1] r1] h1] eqn:Hs.
+      destruct (child_ev_l _ _ _ _ _ _ _ _ _ _ _ _ _ Ls HL Hs) as [R1 T1].
       assert (T' : trs (Un k s) tok tr1) by (eapply trs_un_gen; eassumption).
       destruct r1 as [o1|].
       * injection H as H Hh.
@@ -1080,8 +1099,10 @@ Proof.
         rewrite leafev_bin_seq in H by exact Hk.
         destruct (ph ns) eqn:Hp.
         -- rewrite live_seq1 in HL by assumption. destruct HL as [He HL].
-           unfold leafev_seq1 in H. destruct (leafev a sa id o cx) as [[[sa' tra] ra] h1] eqn:Ha.
-           destruct (La _ _ _ _ _ _ _ _ _ Ha HL) as [R1 T1]. apply (trs_bin_a k a b) in T1.
+           unfold leafev_seq1 in H.
+           destruct (child_ev (bin_throw k false) (bin_catch k false) a sa id (bin_in k false o) o cx)
+             as [[[sa' tra] ra] h1] eqn:Ha.
+           destruct (child_ev_l _ _ _ _ _ _ _ _ _ _ _ _ _ La HL Ha) as [R1 T1]. apply (trs_bin_a k a b) in T1.
            destruct ra as [oa|].
            ++ injection H as H Hhit.
               destruct (start a (n_env ns) cx) as [[sa0 tra0] ra0] eqn:E1.
@@ -1093,8 +1114,10 @@ Proof.
               rewrite live_seq1 by (auto; exact Hp). split; [reflexivity|]. apply R1. reflexivity.
         -- assert (Hp' : ph ns <> PFirst) by congruence.
            rewrite live_seq2 in HL by assumption. destruct HL as [He HL].
-           unfold leafev_seq2 in H. destruct (leafev b sb id o cx) as [[[sb' trb] rb] h1] eqn:Hb.
-           destruct (Lb _ _ _ _ _ _ _ _ _ Hb HL) as [R1 T1]. apply (trs_bin_b k a b) in T1.
+           unfold leafev_seq2 in H.
+           destruct (child_ev (bin_throw k true) (bin_catch k true) b sb id (bin_in k true o) o cx)
+             as [[[sb' trb] rb] h1] eqn:Hb.
+           destruct (child_ev_l _ _ _ _ _ _ _ _ _ _ _ _ _ Lb HL Hb) as [R1 T1]. apply (trs_bin_b k a b) in T1.
            destruct rb as [ob|].
            ++ injection H as H Hhit.
               destruct (start a (n_env ns) cx) as [[sa0 tra0] ra0] eqn:E1.
@@ -1106,8 +1129,10 @@ Proof.
               rewrite live_seq2 by (auto; exact Hp'). split; [reflexivity|]. apply R1. reflexivity.
         -- assert (Hp' : ph ns <> PFirst) by congruence.
            rewrite live_seq2 in HL by assumption. destruct HL as [He HL].
-           unfold leafev_seq2 in H. destruct (leafev b sb id o cx) as [[[sb' trb] rb] h1] eqn:Hb.
-           destruct (Lb _ _ _ _ _ _ _ _ _ Hb HL) as [R1 T1]. apply (trs_bin_b k a b) in T1.
+           unfold leafev_seq2 in H.
+           destruct (child_ev (bin_throw k true) (bin_catch k true) b sb id (bin_in k true o) o cx)
+             as [[[sb' trb] rb] h1] eqn:Hb.
+           destruct (child_ev_l _ _ _ _ _ _ _ _ _ _ _ _ _ Lb HL Hb) as [R1 T1]. apply (trs_bin_b k a b) in T1.
            destruct rb as [ob|].
            ++ injection H as H Hhit.
               destruct (start a (n_env ns) cx) as [[sa0 tra0] ra0] eqn:E1.
@@ -1190,9 +1215,9 @@ Lemma ccd_newly k ns i o :
   own_stop ns = false -> loser_cond k o ->
   exists ns2 fin, conc_child_done k ns i o = (ns2, true, fin).
 Proof.
-  intros Hown Hk. unfold conc_child_done.
+  intros Hown Hk. unfold conc_child_done. cbv zeta.
   assert (N : match k with
-              | BWhenAll => match o with OVal _ => false | _ => negb (own_stop ns) end
+              | BWhenAll => match conc_in k o with OVal _ => false | _ => negb (own_stop ns) end
               | _ => negb (own_stop ns) end = true).
   { rewrite Hown. destruct Hk as [->|[->|[-> Hv]]]; try reflexivity.
     destruct o; try reflexivity. exfalso. eapply Hv. reflexivity. }
@@ -1205,7 +1230,8 @@ Proof. destruct r as [[sc tr] o]. unfold conc_reap. destruct k; try reflexivity.
 Theorem losers_stopped_a k a b ns sa sb id o cx sa' tra oa st' tr r hit tok :
   is_seq k = false ->
   live tok (Bin k a b) (ONode ns sa sb) ->
-  adone ns = false -> leafev a sa id o cx = (sa', tra, Some oa, true) ->   (* the event completes child a *)
+  adone ns = false ->
+  child_ev (bin_throw k false) false a sa id (tmode o) o cx = (sa', tra, Some oa, true) ->  (* the event completes child a *)
   loser_cond k oa -> own_stop ns = false -> bdone ns = false ->          (* b running, not yet told *)
   leafev (Bin k a b) (ONode ns sa sb) id o cx = (st', tr, r, hit) ->
   forall id', In id' (reach_unseen b sb) -> In (TLeafStop id') tr.
@@ -1237,8 +1263,8 @@ Qed.
 Theorem losers_stopped_b k a b ns sa sb id o cx sb' trb ob st' tr r hit tok :
   is_seq k = false ->
   live tok (Bin k a b) (ONode ns sa sb) ->
-  (adone ns = false -> snd (leafev a sa id o cx) = false) ->             (* the event is not for a *)
-  bdone ns = false -> leafev b sb id o cx = (sb', trb, Some ob, true) ->  (* it completes child b *)
+  (adone ns = false -> snd (leafev a sa id (tmode o) cx) = false) ->             (* the event is not for a *)
+  bdone ns = false -> leafev b sb id (tmode o) cx = (sb', trb, Some ob, true) ->  (* it completes child b *)
   loser_cond k ob -> own_stop ns = false -> adone ns = false ->
   leafev (Bin k a b) (ONode ns sa sb) id o cx = (st', tr, r, hit) ->
   forall id', In id' (reach_unseen a sa) -> In (TLeafStop id') tr.
@@ -1247,7 +1273,8 @@ Proof.
   rewrite live_conc in HL by exact Hk. destruct HL as (_ & _ & La & _ & _).
   rewrite Had, Hown in La. simpl in La. specialize (Hmiss Had).
   rewrite leafev_bin_conc in H by exact Hk. unfold leafev_conc in H. rewrite Had in H.
-  destruct (leafev a sa id o cx) as [[[sa1 tra1] ra1] hita]. simpl in Hmiss. subst hita.
+  destruct (child_ev (bin_throw k false) false a sa id (tmode o) o cx) as [[[sa1 tra1] ra1] hita] eqn:Ec.
+  apply child_ev_cases in Ec. destruct Ec as (Eh & _). rewrite Hmiss in Eh. subst hita.
   unfold reap_ev in H. cbn [fst snd] in H.
   destruct (conc_reap k a (sa1, tra1, ra1)) as [[sa2 tra2] ra2].
   rewrite Hbd, Hb in H. cbn [fst snd] in H.
@@ -1270,6 +1297,41 @@ Proof.
   - inv H. apply in_or_app. auto.
 Qed.
 
+
+(* the stage-3 formulations: for an event that is not a re-delivery (scripts never deliver OValK) and, for child a,
+   a completion that is not a throwing value, the node sees exactly the child's own result *)
+Lemma tmode_plain o : is_k o = false -> tmode o = o.
+Proof. destruct o; try reflexivity. discriminate. Qed.
+
+Theorem losers_stopped_a_plain k a b ns sa sb id o cx sa' tra oa st' tr r hit tok :
+  is_seq k = false ->
+  live tok (Bin k a b) (ONode ns sa sb) ->
+  is_k o = false -> (forall v, oa <> OValT v) ->
+  adone ns = false -> leafev a sa id o cx = (sa', tra, Some oa, true) ->
+  loser_cond k oa -> own_stop ns = false -> bdone ns = false ->
+  leafev (Bin k a b) (ONode ns sa sb) id o cx = (st', tr, r, hit) ->
+  forall id', In id' (reach_unseen b sb) -> In (TLeafStop id') tr.
+Proof.
+  intros Hk HL Ho Hoa Had Ha Hl Hown Hbd H.
+  refine (losers_stopped_a k a b ns sa sb id o cx sa' tra oa st' tr r hit tok Hk HL Had _ Hl Hown Hbd H).
+  unfold child_ev. rewrite (tmode_plain o Ho), Ha.
+  destruct oa; try reflexivity. exfalso. eapply Hoa. reflexivity.
+Qed.
+
+Theorem losers_stopped_b_plain k a b ns sa sb id o cx sb' trb ob st' tr r hit tok :
+  is_seq k = false ->
+  live tok (Bin k a b) (ONode ns sa sb) ->
+  is_k o = false ->
+  (adone ns = false -> snd (leafev a sa id o cx) = false) ->
+  bdone ns = false -> leafev b sb id o cx = (sb', trb, Some ob, true) ->
+  loser_cond k ob -> own_stop ns = false -> adone ns = false ->
+  leafev (Bin k a b) (ONode ns sa sb) id o cx = (st', tr, r, hit) ->
+  forall id', In id' (reach_unseen a sa) -> In (TLeafStop id') tr.
+Proof.
+  intros Hk HL Ho Hm Hbd Hb Hl Hown Had H.
+  rewrite <- (tmode_plain o Ho) in Hm, Hb.
+  exact (losers_stopped_b k a b ns sa sb id o cx sb' trb ob st' tr r hit tok Hk HL Hm Hbd Hb Hl Hown Had H).
+Qed.
 
 (* ---- let_value_with_stop_source ---------------------------------------------------------------------- *)
 (* an external stop request passes through the operation's own source to the leaves below it *)
@@ -1311,7 +1373,8 @@ Theorem letss_request_reaches now s ns sc sb id o cx sc' tr0 st' tr r hit tok :
 Proof.
   intros HL Hown Hl Hf H. rewrite live_un in HL. destruct HL as (He & Ho & HL).
   unfold un_tok in HL. simpl in HL.
-  rewrite leafev_un in H. unfold leafev_un_body in H. rewrite Hl in H.
+  rewrite leafev_un in H. unfold leafev_un_body, child_ev in H.
+  change (un_in (ULetSS now) o) with o in H. rewrite Hl in H. cbn [thrown] in H.
   cbn [un_own andb] in H. rewrite Hf in H. unfold fired_body in H. rewrite Hown in H.
   destruct (leafev_l s _ _ _ _ _ _ _ _ _ Hl HL) as [R1 _]. rewrite Hown in R1.
   destruct (stop s sc' cx) as [[sc1 tr1] r1] eqn:Hs.
@@ -1603,6 +1666,8 @@ Proof.
            inv H. exact (IH _ _ _ _ _ Hr).
         -- inv H. split; [discriminate|intros; exact I].
         -- inv H. split; [discriminate|intros; exact I].
+        -- inv H. split; [discriminate|intros; exact I].
+        -- inv H. split; [discriminate|intros; exact I].
       * inv H. split; [auto|congruence].
 Qed.
 
@@ -1612,7 +1677,7 @@ Lemma un_fin_d d k s ns sc tr o sc0 tr0 rr0 st tr' r :
 Proof.
   intros Hn Hq0 H. unfold un_fin in H.
   destruct k; try (eapply un_done_d; eassumption).
-  unfold rep_done in H. destruct o; try (inv H; auto with calcd; fail).
+  rewrite rep_done_eq in H. destruct (is_val o); [|inv H; auto with calcd].
   destruct (rep_loop s (sc0, tr0, rr0) (skipn (n_iter ns) l) (n_iter ns)) as [i' [[sc' tr2] r2]] eqn:Hr.
   destruct (rep_loop_d _ _ _ _ _ Hq0 _ _ _ _ _ _ Hr) as (Q & N).
   destruct r2; injection H as <- <- <-.
@@ -1644,7 +1709,11 @@ Proof.
                 as [[i2 p2] [[st2 tr2] r2]] eqn:Hr.
               inv H. exact (IH _ _ _ _ _ _ _ _ _ _ Hql Hr).
            ++ inv H. split; [discriminate|intros; exact I].
+           ++ inv H. split; [discriminate|intros; exact I].
+           ++ inv H. split; [discriminate|intros; exact I].
         -- inv H. split; [|congruence]. intros _. exists sa0, OFin. auto with calcd.
+      * inv H. split; [discriminate|intros; exact I].
+      * inv H. split; [discriminate|intros; exact I].
       * inv H. split; [discriminate|intros; exact I].
       * inv H. split; [discriminate|intros; exact I].
     + inv H. split; [|congruence]. intros _. exists OFin, sbe. auto with calcd.
@@ -1720,8 +1789,8 @@ Lemma b_done_d d k a b ns sb trb ob sa0 tra0 ra0 sbl trbl rbl st tr r :
 Proof.
   intros Hk Hn Hqa0 Hql H. unfold b_done in H.
   destruct k; try (eapply seq_final_d; eassumption).
-  unfold retry_b_done in H.
-  destruct ob; try (inv H; auto with calcd; fail).
+  rewrite retry_b_done_eq in H.
+  destruct (is_val ob); [|inv H; auto with calcd].
   destruct ra0 as [oa|].
   - destruct oa; try (inv H; auto with calcd; fail).
     destruct (retry_err a b (sa0, tra0, Some (OErr e)) (sbl, trbl, rbl) (n - n_iter ns) (n_iter ns) (sbl, trbl, rbl) e)
@@ -1857,14 +1926,22 @@ Proof.
     eapply finish_d; eauto.
 Qed.
 
-Lemma opt_leafev_d d k c cx (dd : bool) sc id o sc' tr r hit :
+Lemma child_ev_d thr cat d c cx sc id oin o sc' tr r hit :
   LeafevD c -> dwf d c sc ->
-  (if dd then ((sc, [], None), false) else reap_ev k c (leafev c sc id o cx)) = ((sc', tr, r), hit) ->
+  child_ev thr cat c sc id oin o cx = ((sc', tr, r), hit) -> dwf d c sc'.
+Proof.
+  intros L Hq H. apply child_ev_none in H. destruct H as (oin' & ro & h & E & _).
+  exact (L _ _ _ _ _ _ _ _ _ E Hq).
+Qed.
+
+Lemma opt_leafev_d d k c (dd : bool) sc (X : res * bool) sc' tr r hit :
+  (forall s1 t1 r1 h1, X = ((s1, t1, r1), h1) -> dwf d c s1) -> dwf d c sc ->
+  (if dd then ((sc, [], None), false) else reap_ev k c X) = ((sc', tr, r), hit) ->
   dwf d c sc'.
 Proof.
   intros L Hq H. destruct dd; [inv H; auto|].
-  destruct (leafev c sc id o cx) as [[[s0 t0] r0] h0] eqn:Hs.
-  pose proof (L _ _ _ _ _ _ _ _ _ Hs Hq) as Q.
+  destruct X as [[[s0 t0] r0] h0] eqn:Hs.
+  pose proof (L _ _ _ _ eq_refl) as Q.
   unfold reap_ev in H. simpl in H. injection H as H Hh.
   exact (conc_reap_d _ _ _ _ _ _ _ _ _ H Q).
 Qed.
@@ -1875,16 +1952,19 @@ Lemma leafev_conc_d d k a b ns sa sb id o cx st' tr r hit :
   leafev_conc k a b ns sa sb id o cx = (st', tr, r, hit) -> dwf d (Bin k a b) st'.
 Proof.
   intros La Lb Pa Pb Hn Hqa Hqb H. unfold leafev_conc in H.
-  destruct (if adone ns then (sa, [], None, false) else reap_ev k a (leafev a sa id o cx))
+  destruct (if adone ns then (sa, [], None, false)
+            else reap_ev k a (child_ev (bin_throw k false) false a sa id (tmode o) o cx))
     as [[[sa' tra] ra] hita] eqn:Ha.
-  pose proof (opt_leafev_d _ _ _ _ _ _ _ _ _ _ _ _ La Hqa Ha) as Hqa'.
+  pose proof (opt_leafev_d d k a _ _ _ _ _ _ _
+                (fun s1 t1 r1 h1 E => child_ev_d _ _ _ _ _ _ _ _ _ _ _ _ _ La Hqa E) Hqa Ha) as Hqa'.
   destruct hita.
   - destruct ra as [oa|].
     + injection H as H Hhit. eapply conc_a_done_d; [exact Pb|exact Hn|exact Hqa'|exact Hqb|exact H].
     + inv H. rewrite dwf_bin. auto.
-  - destruct (if bdone ns then (sb, [], None, false) else reap_ev k b (leafev b sb id o cx))
+  - destruct (if bdone ns then (sb, [], None, false) else reap_ev k b (leafev b sb id (tmode o) cx))
       as [[[sb' trb] rb] hitb] eqn:Hb.
-    pose proof (opt_leafev_d _ _ _ _ _ _ _ _ _ _ _ _ Lb Hqb Hb) as Hqb'.
+    pose proof (opt_leafev_d d k b _ _ _ _ _ _ _
+                  (fun s1 t1 r1 h1 E => Lb _ _ _ _ _ _ _ _ _ E Hqb) Hqb Hb) as Hqb'.
     destruct rb as [ob|].
     + injection H as H Hhit. eapply conc_b_done_d; [exact Pa|exact Hn|exact Hqa|exact Hqb'|exact H].
     + inv H. rewrite dwf_bin. auto.
@@ -1937,8 +2017,8 @@ Proof.
         |simpl in H; inv H; auto with calcd].
       rewrite dwf_un in Hq. destruct Hq as [Hn Hq].
       rewrite leafev_un in H. unfold leafev_un_body in H.
-      destruct (leafev s sc i o cx) as [[[sc' tr1] r1] h1] eqn:Hs.
-      pose proof (Ls _ _ _ _ _ _ _ _ _ Hs Hq) as Hq'.
+      destruct (child_ev (un_throw k) (un_catch k) s sc i (un_in k o) o cx) as [[[sc' tr1] r1] h1] eqn:Hs.
+      pose proof (child_ev_d _ _ _ _ _ _ _ _ _ _ _ _ _ Ls Hq Hs) as Hq'.
       destruct r1 as [o1|].
       * injection H as H Hh.
         destruct (start s (un_env k (n_env ns)) cx) as [[sc0 tr0] rr0] eqn:H0.
@@ -2027,8 +2107,10 @@ Proof.
         rewrite dwf_bin in Hq. destruct Hq as (Hn & Hqa & Hqb).
         rewrite leafev_bin_seq in H by exact Hk.
         destruct (ph ns).
-        -- unfold leafev_seq1 in H. destruct (leafev a sa i o cx) as [[[sa' tra] ra] h1] eqn:Ha.
-           pose proof (La _ _ _ _ _ _ _ _ _ Ha Hqa) as Hqa'.
+        -- unfold leafev_seq1 in H.
+           destruct (child_ev (bin_throw k false) (bin_catch k false) a sa i (bin_in k false o) o cx)
+             as [[[sa' tra] ra] h1] eqn:Ha.
+           pose proof (child_ev_d _ _ _ _ _ _ _ _ _ _ _ _ _ La Hqa Ha) as Hqa'.
            destruct ra as [oa|].
            ++ injection H as H Hh.
               destruct (start a (n_env ns) cx) as [[sa0 tra0] ra0] eqn:E1.
@@ -2036,8 +2118,10 @@ Proof.
               destruct (R0 _ _ _ _ _ _ _ _ E1 E2) as (Q1 & Q2). rewrite (Hn : e_ss (n_env ns) = d) in Q1, Q2.
               eapply a_done_d; [exact Hk|exact Sb|exact Hn|exact Q1|exact Q2|exact H].
            ++ inv H. rewrite dwf_bin. auto.
-        -- unfold leafev_seq2 in H. destruct (leafev b sb i o cx) as [[[sb' trb] rb] h1] eqn:Hb.
-           pose proof (Lb _ _ _ _ _ _ _ _ _ Hb Hqb) as Hqb'.
+        -- unfold leafev_seq2 in H.
+           destruct (child_ev (bin_throw k true) (bin_catch k true) b sb i (bin_in k true o) o cx)
+             as [[[sb' trb] rb] h1] eqn:Hb.
+           pose proof (child_ev_d _ _ _ _ _ _ _ _ _ _ _ _ _ Lb Hqb Hb) as Hqb'.
            destruct rb as [ob|].
            ++ injection H as H Hh.
               destruct (start a (n_env ns) cx) as [[sa0 tra0] ra0] eqn:E1.
@@ -2045,8 +2129,10 @@ Proof.
               destruct (R0 _ _ _ _ _ _ _ _ E1 E2) as (Q1 & Q2). rewrite (Hn : e_ss (n_env ns) = d) in Q1, Q2.
               eapply b_done_d; [exact Hk|exact Hn|exact Q1|exact Q2|exact H].
            ++ inv H. rewrite dwf_bin. auto.
-        -- unfold leafev_seq2 in H. destruct (leafev b sb i o cx) as [[[sb' trb] rb] h1] eqn:Hb.
-           pose proof (Lb _ _ _ _ _ _ _ _ _ Hb Hqb) as Hqb'.
+        -- unfold leafev_seq2 in H.
+           destruct (child_ev (bin_throw k true) (bin_catch k true) b sb i (bin_in k true o) o cx)
+             as [[[sb' trb] rb] h1] eqn:Hb.
+           pose proof (child_ev_d _ _ _ _ _ _ _ _ _ _ _ _ _ Lb Hqb Hb) as Hqb'.
            destruct rb as [ob|].
            ++ injection H as H Hh.
               destruct (start a (n_env ns) cx) as [[sa0 tra0] ra0] eqn:E1.
@@ -2119,6 +2205,11 @@ Proof. unfold fired. simpl. rewrite !Nat.eqb_refl. split; reflexivity. Qed.
 (* wsa_via = finally(s, unstoppable(schedule(c))): in a live state the schedule() operation never sees a stop
    request, so the root completes - on c, [wsa_via_completes_on_ctx] - with the held result of s, whatever
    was requested in between (via, whose hop is stoppable, may replace it by done: [via_result]) *)
+Lemma unst_sched_child_ev thr cat id c ns' sb' oin o cx :
+  child_ev thr cat (Un UUnstoppable (Sched id c)) (ONode ns' (OLeaf false false) sb') id oin o cx =
+  ((OCompl (OLeaf true false) OFin, [], Some (OVal 0%Z)), true).
+Proof. unfold child_ev. simpl. rewrite Nat.eqb_refl. reflexivity. Qed.
+
 Theorem wsa_via_result id c s tok ns sa sb i o cx st tr oc hit :
   live tok (wsa_via id c s) (ONode ns sa sb) ->
   leafev (wsa_via id c s) (ONode ns sa sb) i o cx = (st, tr, Some oc, hit) ->
@@ -2130,7 +2221,9 @@ Proof.
     fold (wsa_via id c s). rewrite H. simpl. congruence. }
   subst i. split; [reflexivity|]. unfold wsa_via in H, HL. rewrite leafev_bin_seq in H by reflexivity.
   destruct (ph ns) eqn:Eph.
-  - exfalso. unfold leafev_seq1 in H. destruct (leafev s sa id o cx) as [[[sa' tra] ra] hh].
+  - exfalso. unfold leafev_seq1 in H.
+    destruct (child_ev (bin_throw BFinally false) (bin_catch BFinally false) s sa id (bin_in BFinally false o) o cx)
+      as [[[sa' tra] ra] hh].
     destruct ra; [|discriminate H].
     pose proof (finally_a_done s (Un UUnstoppable (Sched id c)) id ns sa' tra o0 cx (start s (n_env ns) cx)
                   (r0bl_of (Un UUnstoppable (Sched id c)) (n_env ns) (start s (n_env ns) cx) cx) (hop_unst_sched id c)) as Hn.
@@ -2140,16 +2233,14 @@ Proof.
     destruct sb as [|cc sn|ns' sc sb'|? ?|?]; try contradiction HL.
     rewrite live_un in HL. destruct HL as (_ & _ & HL). unfold un_tok in HL. simpl in HL.
     destruct sc as [|cc seen| | |]; try contradiction HL. destruct HL as [-> ->].
-    unfold leafev_seq2 in H. rewrite leafev_un in H. unfold leafev_un_body in H.
-    simpl in H. rewrite Nat.eqb_refl in H. unfold un_fin, un_done, b_done, seq_final in H. simpl in H.
+    unfold leafev_seq2 in H. rewrite unst_sched_child_ev in H. unfold b_done, seq_final in H. simpl in H.
     injection H as _ _ Ho _. destruct (saved ns); [left|right; split]; congruence.
   - split; [discriminate|].
     rewrite live_seq2 in HL by (try reflexivity; congruence). destruct HL as [_ HL].
     destruct sb as [|cc sn|ns' sc sb'|? ?|?]; try contradiction HL.
     rewrite live_un in HL. destruct HL as (_ & _ & HL). unfold un_tok in HL. simpl in HL.
     destruct sc as [|cc seen| | |]; try contradiction HL. destruct HL as [-> ->].
-    unfold leafev_seq2 in H. rewrite leafev_un in H. unfold leafev_un_body in H.
-    simpl in H. rewrite Nat.eqb_refl in H. unfold un_fin, un_done, b_done, seq_final in H. simpl in H.
+    unfold leafev_seq2 in H. rewrite unst_sched_child_ev in H. unfold b_done, seq_final in H. simpl in H.
     injection H as _ _ Ho _. destruct (saved ns); [left|right; split]; congruence.
 Qed.
 
